@@ -136,6 +136,7 @@ def run(ctx, chk, tier="quick"):
     kind = (full_call_name(mod, sv) or "").split(".")[-1]
     A = b = None
     ok2 = False
+    m1 = m2 = p1 = p2 = None
     desc = ast.unparse(sv)[:100]
     if kind == "solve" and len(sv.args) == 2:
         m1 = flow.def_value(sv.args[0]) if isinstance(sv.args[0], ast.Name) else sv.args[0]
@@ -149,6 +150,10 @@ def run(ctx, chk, tier="quick"):
         A, b = sv.args[0].id, sv.args[1].id
         ok2 = True
         desc = "lstsq(%s, %s)" % (A, b)
+    if not ok2 and kind == "solve" and len(sv.args) == 2 and (m1 is None or m2 is None or p1 is None or p2 is None):
+        # operands that are not plain products (accumulated block by block, built by another routine): not read
+        chk.indeterminate("C05.O2", where_of(f, sv), "the operands of %s are not products A^T A and A^T b written in place (accumulated or built elsewhere): what they hold is not read" % desc)
+        return
     chk.ob("C05.O2", ok2, where_of(f, sv), desc, "solve(A^T A, A^T b) (or a least-squares solve of A x = b)",
            key="find_offsets|normal-equations", scope=f, why="any other pairing of operands solves a different problem than min |A x - b|^2")
     if A is None:
